@@ -322,7 +322,9 @@ func (em *emitter) emitAssignmentOperation(addr address, rh ast.Expression) {
 		assignNonLocalSliceIndex:
 		em.fb.emitIndex(false, addr.op1, addr.op2, c, addrTyp, addr.pos, false)
 	case assignPtrIndirection:
-		em.changeRegister(false, addr.op1, c, addrTyp, addrTyp)
+		// Load the pointed value. The instruction panics if the pointer is nil.
+		em.fb.addPosAndPath(addr.pos)
+		em.changeRegister(false, -addr.op1, c, typ, typ)
 	case assignLocalStructSelector,
 		assignNonLocalStructSelector:
 		em.fb.emitField(addr.op1, addr.op2, c, typ.Kind())
